@@ -159,8 +159,9 @@ pub fn sub(seed: u64) -> Program {
             if g.rng.chance(35) {
                 for _ in 0..g.rng.range(1, 3) {
                     ops.push(Op::Next { it, n: 1 });
-                    match g.rng.below(3) {
+                    match g.rng.below(4) {
                         0 => ops.push(Op::GetState { store: 0 }),
+                        3 => ops.push(Op::GetMetrics { store: 0 }),
                         1 => {
                             subs.push(direct(false));
                             ops.push(Op::AddSub { store: 0, sub: subs.len() - 1, reg: regs });
@@ -179,9 +180,16 @@ pub fn sub(seed: u64) -> Program {
                 ops.push(Op::Next { it, n: 1 });
                 ops.push(Op::Sleep { ms: g.rng.pick(&[100u32, 3100, 5000]) });
             }
-            ops.push(Op::Drain { it });
-            if g.rng.chance(50) {
+            // a consumer that quits (drops its iterator) as soon as somebody has asked the store to
+            // stop, while the reducer may still be working through its backlog
+            if g.rng.chance(15) {
+                ops.push(Op::NextUntilShut { it, store: 0 });
                 ops.push(Op::DropIter { it });
+            } else {
+                ops.push(Op::Drain { it });
+                if g.rng.chance(50) {
+                    ops.push(Op::DropIter { it });
+                }
             }
         }
         threads.push(ops);
@@ -296,8 +304,16 @@ pub fn api(seed: u64) -> Program {
                         cons.push(Op::Next { it, n: 1 });
                         cons.push(Op::Unsub { reg: regs });
                         regs += 1;
+                        if g.rng.chance(50) {
+                            cons.push(Op::GetMetrics { store: 0 });
+                        }
                     }
-                    cons.push(Op::Drain { it });
+                    if g.rng.chance(20) {
+                        cons.push(Op::NextUntilShut { it, store: 0 });
+                        cons.push(Op::DropIter { it });
+                    } else {
+                        cons.push(Op::Drain { it });
+                    }
                     extra_threads.push(cons);
                     ops.push(Op::Start { thread: 1000 + extra_threads.len() - 1 });
                 }
